@@ -10,7 +10,7 @@ HEADER = "From Coq Require Import ZArith List.\nFrom TV Require Import Common.Ha
 CASE_T = "C12.Corr.case"
 PROPS = ["C12/Props.v"]
 CLAUSE = {1: "stale-read", 2: "getter-ran-twice", 3: "change-not-notified", 4: "event-announces-stale-value"}
-PNAMES = ["scalar", "child", "kids", "dict", "set", "nums", "nested", "kidchild", "multi", "chain", "mitems", "sitems", "raw", "xscalar", "area", "maybe"]
+PNAMES = ["scalar", "child", "kids", "dict", "set", "nums", "nested", "kidchild", "multi", "chain", "mitems", "sitems", "raw", "xscalar", "area", "maybe", "tname"]
 KEYS = ["ka", "kb", "kc"]
 
 
@@ -79,7 +79,7 @@ def nontrivial(case, obs):
 RELEVANT = {  # traits whose mutation matters for each property (steers the generator only)
     "scalar": ["value"], "child": ["child", "value"], "kids": ["kids", "value"], "dict": ["m", "value"],
     "set": ["s", "value"], "nums": ["nums"], "nested": ["child", "kids", "value"],
-    "kidchild": ["kids", "child", "value"], "multi": ["value", "child", "nums"], "chain": ["value"], "mitems": ["m"], "sitems": ["s"], "raw": ["raw"], "xscalar": ["value"], "area": ["value", "other"], "maybe": ["value"],
+    "kidchild": ["kids", "child", "value"], "multi": ["value", "child", "nums"], "chain": ["value"], "mitems": ["m"], "sitems": ["s"], "raw": ["raw"], "xscalar": ["value"], "area": ["value", "other"], "maybe": ["value"], "tname": ["value"],
 }
 
 
@@ -151,7 +151,7 @@ def gen_case(rnd, ctx, maxlen):
                 item = (lambda: rnd.choice(hi)) if tr == "kids" else (lambda: rnd.randint(0, 4))
                 ln = lens[(i, tr)]
                 ch = rnd.choice(["Set", "Append", "Append", "Insert", "Pop", "SetItem", "SetSame", "Remove", "Clear",
-                                 "Extend", "Reverse", "SetSlice"])
+                                 "Extend", "Reverse", "SetSlice", "Reset"])
                 if ch == "Set":
                     v = [item() for _ in range(rnd.randint(0, 3))]
                     op = ["Set", i, tr, v]
@@ -178,6 +178,9 @@ def gen_case(rnd, ctx, maxlen):
                     lens[(i, tr)] = ln + len(v)
                 elif ch == "Reverse":
                     op = ["Reverse", i, tr]
+                elif ch == "Reset":
+                    op = ["Reset", i, tr, rnd.randint(0, 1)]
+                    lens[(i, tr)] = 0
                 elif ch == "SetSlice" and ln:
                     # the items stay, their multiplicities change in ONE event (removed and added overlap)
                     mult = [rnd.choice([0, 1, 1, 2, 3]) for _ in range(ln)]
@@ -188,21 +191,30 @@ def gen_case(rnd, ctx, maxlen):
                     op = ["Append", i, tr, item()]
                     lens[(i, tr)] = ln + 1
             elif tr == "m":
-                ch = rnd.choice(["Set", "DSet", "DSet", "DDel", "DUpdate", "Clear"])
+                ch = rnd.choice(["Set", "DSet", "DSet", "DDel", "DUpdate", "Clear", "Reset"])
                 if ch == "Set":
                     op = ["Set", i, "m", [[k, rnd.choice(hi)] for k in rnd.sample(KEYS, rnd.randint(0, 3))]]
                 elif ch == "DSet":
                     op = ["DSet", i, "m", rnd.choice(KEYS), rnd.choice(hi)]
                 elif ch == "DDel":
                     op = ["DDel", i, "m", rnd.choice(KEYS)]
+                elif ch == "Reset":
+                    op = ["Reset", i, "m", rnd.randint(0, 1)]
                 elif ch == "DUpdate":
                     op = ["DUpdate", i, "m", [[k, rnd.choice(hi)] for k in rnd.sample(KEYS, rnd.randint(0, 2))]]
                 else:
                     op = ["Clear", i, "m"]
             else:
-                ch = rnd.choice(["Set", "SAdd", "SAdd", "SDiscard", "Clear"])
+                ch = rnd.choice(["Set", "SAdd", "SAdd", "SDiscard", "Clear", "Reset", "SInter", "SInter", "SDiff", "SUpdate", "SSym"])
+                args = [[rnd.choice(hi) for _ in range(rnd.randint(0, 3))] for _ in range(rnd.choice([1, 2, 2, 3]))]
                 if ch == "Set":
                     op = ["Set", i, "s", sorted(set(rnd.choice(hi) for _ in range(rnd.randint(0, 3))))]
+                elif ch == "Reset":
+                    op = ["Reset", i, "s", rnd.randint(0, 1)]
+                elif ch in ("SInter", "SDiff", "SUpdate"):
+                    op = [ch, i, "s", args]
+                elif ch == "SSym":
+                    op = ["SSym", i, "s", args[0]]
                 elif ch == "SAdd":
                     op = ["SAdd", i, "s", rnd.choice(hi)]
                 elif ch == "SDiscard":
@@ -214,7 +226,7 @@ def gen_case(rnd, ctx, maxlen):
     ctx.count("property:" + pname)
     ctx.count("cached:%s" % cached)
     ctx.count("history-length:%02d" % len(ops))
-    sub = cached and pname != "xscalar" and rnd.random() < 0.2
+    sub = cached and pname not in ("xscalar", "tname") and rnd.random() < 0.2
     ctx.count("subclass-overriding-getter-with-cached_property:%s" % sub)
     redecl = cached and not sub and pname == "scalar" and rnd.random() < 0.5
     ctx.count("property-redeclared-in-subclass:%s" % redecl)
@@ -295,6 +307,25 @@ def corpus():
             cs.append(dict(prop="scalar", cached=cached, added=how, n=2, init=dup,
                            ops=[["Read"], ["Listen", "observe"], ["Set", 0, "value", 4], ["Read"], ["Set", 0, "value", 5],
                                 ["Read"], ["Read"]]))
+    # fifth wave: a dependency deleted / reset to its (non-constant) default; a property with an ordinary name that
+    # starts with a letter of "_get_"; intersection_update with several arguments
+    tri = [{"value": 1, "child": 1, "kids": [1, 2], "m": [["ka", 1], ["kb", 2]], "s": [1, 2], "nums": [3, 4]},
+           {"value": 2, "child": None, "kids": [], "m": [], "s": [], "nums": []},
+           {"value": 5, "child": None, "kids": [], "m": [], "s": [], "nums": []}]
+    for cached in (True, False):
+        for pn, tr in (("kids", "kids"), ("dict", "m"), ("set", "s"), ("nums", "nums")):
+            for how in (0, 1):
+                cs.append(dict(prop=pn, cached=cached, n=3, init=tri,
+                               ops=[["Read"], ["Listen", "observe"], ["Reset", 0, tr, how], ["Read"], ["Set", 1, "value", 4],
+                                    ["Read"], ["Reset", 0, tr, how], ["Read"], ["Read"]]))
+        cs.append(dict(prop="tname", cached=cached, n=3, init=tri,
+                       ops=[["Read"], ["Listen", "observe"], ["Set", 0, "value", 4], ["Read"], ["Read"], ["Set", 0, "value", 2],
+                            ["Read"]]))
+        for pn in ("set", "sitems"):
+            cs.append(dict(prop=pn, cached=cached, n=3, init=tri,
+                           ops=[["Read"], ["Listen", "observe"], ["SInter", 0, "s", [[1], [2]]], ["Read"], ["Set", 1, "value", 4],
+                                ["Read"], ["SUpdate", 0, "s", [[1, 2], [2]]], ["Read"], ["SInter", 0, "s", [[1, 2], [2], [2, 1]]],
+                                ["Read"], ["Set", 1, "value", 3], ["Read"], ["SDiff", 0, "s", [[1], [2]]], ["Read"]]))
     # a getter that legitimately returns None, read repeatedly without a change in between
     cs.append(dict(prop="maybe", cached=True, n=2, init=dup,
                    ops=[["Set", 0, "value", 2], ["Read"], ["Read"], ["Read"], ["Listen", "observe"], ["Set", 0, "value", 3], ["Read"],
